@@ -11,6 +11,8 @@ one literal per value; INSERT + SELECT on the real SQLite returns the value and 
 import datetime
 import decimal
 import itertools
+import math
+import struct
 import re
 import sqlite3
 
@@ -40,7 +42,9 @@ META = {
                 'reference statement tokenizer (Model/Lex.lean tokens): words, punctuation, string literals; comments and '
                 'quoted identifiers outside literals are refused, not modelled'],
     'modelled': ['SQLite lexer and sqlite3 driver NUL rejection (executed, not verified)',
-                 'repr(float), Decimal.to_eng_string: text taken from CPython, only its character class is used',
+                 'repr(float), Decimal.to_eng_string: text produced by CPython; the oracle checks that the rendered literal reads back (correctly rounded float() / Decimal()) as exactly the value; the Lean model uses only its token shape',
+                 'SQLite 3.40.1 decimal->double parsing is within 1 ulp, not correctly rounded (about 1e-4 of random doubles come back 1 ulp off on the unchanged tree)',
+                 'non-finite floats render as the bare words inf / -inf / nan (baseline): not numeric literals, refused by SQLite (no such column)',
                  'raw NUL inside a firebird/sybase/maxdb/mssql/postgres statement is modelled as refused (C-string client APIs)'],
     'assumptions': ['string primary keys: ids that look numeric are excluded (the link-table columns are declared INT; that is DDL, C14)',
                     'PostgreSQL runs with standard_conforming_strings=on (default since 9.1), MySQL without NO_BACKSLASH_ESCAPES and ANSI_QUOTES',
@@ -524,6 +528,7 @@ def run(ctx):
     run_like(ctx)
     run_strids(ctx)
     run_enum(ctx)
+    run_floats(ctx)
 
 
 def scalar_value(rng):
@@ -1207,6 +1212,93 @@ def minimise_enum(v):
         return minimise(v, bad) if bad(v) else v
     except Exception:
         return v
+
+
+
+# ------------------------------------------------------------------ float / Decimal literals decode to exactly the value
+def ulp_close(a, b):
+    return a == b or a == math.nextafter(b, math.inf) or a == math.nextafter(b, -math.inf)
+
+
+def run_floats(ctx):
+    """every float renders as a numeric literal whose correctly rounded decimal->double reading (Python float())
+    is EXACTLY the value, for all dialects; on SQLite `SELECT <literal>` is compared with == up to the engine's
+    own 1-ulp parsing error (SQLite 3.40 is not correctly rounded: ~1e-4 of random doubles come back 1 ulp off
+    on the unchanged tree — measured, modelled, not the library's doing).
+    Baseline for non-finite values (what the code does today): inf / -inf / nan render as the bare words
+    `inf`, `-inf`, `nan`, which are not numeric literals — SQLite refuses them ("no such column"), i.e. they
+    are rejected, never stored as another number."""
+    rng = ctx.rng
+    raw = env()['raw']
+    xs = [0.1 + 0.2, 1 / 3, math.pi, float(2 ** 53 - 1), float(2 ** 53 + 1), float(2 ** 53), 1.7976931348623157e308,
+          -1.7976931348623157e308, 5e-324, -5e-324, 2.2250738585072014e-308, -0.0, 0.0, 1.0, -1.0, 5.0, 1e15, 1e16, 1e17, 1e22,
+          1e23, 123456789.0, 0.1, 0.7, 1e-7, -2.25e-7, 9007199254740993.0, 0.30000000000000004, 2.675, 1.1, 1e-5, 1e-4,
+          float('inf'), float('-inf'), float('nan')]
+    for _ in range(ctx.budget(1500, 60000)):
+        r = rng.random()
+        if r < 0.4:
+            x = struct.unpack('<d', struct.pack('<Q', rng.getrandbits(64)))[0]
+        elif r < 0.6:
+            x = float(rng.randint(-10 ** 18, 10 ** 18))
+        elif r < 0.8:
+            x = rng.random() * 10 ** rng.randint(-12, 12) * rng.choice([1, -1])
+        else:
+            x = rng.randint(-10 ** 6, 10 ** 6) / rng.choice([3, 7, 10, 100, 1000, 4096])
+        xs.append(x)
+    for x in xs:
+        finite = not (math.isnan(x) or math.isinf(x))
+        for d in DIALECTS:
+            text = impl_sqlrepr(x, d)
+            desc = {'dialect': d, 'float': x.hex() if finite else repr(x), 'repr': repr(x), 'literal': text}
+            ctx.case(('float', d, repr(x)), kind='float:' + ('finite' if finite else 'non-finite'))
+            m = _NUM.match(text)
+            try:
+                back = float(text) if m else None
+            except ValueError:
+                back = None
+            if finite:
+                ok = back is not None and back == x and math.copysign(1.0, back) == math.copysign(1.0, x)
+                if not ok:
+                    ctx.oracle_fail('C02:%s:float-literal-is-not-the-value:%s' % (d, x.hex()),
+                                    'sqlrepr(%r, %r) = %r, which reads as %r: a different number (stored, compared in WHERE / IN as another value)'
+                                    % (x, d, text, back), desc)
+            else:
+                # baseline: a bare word, not a number; what must never happen is a literal of some finite number
+                if back is not None and not (math.isnan(back) and math.isnan(x)) and back != x:
+                    ctx.oracle_fail('C02:%s:non-finite-float-rendered-as-a-number:%r' % (d, x),
+                                    'sqlrepr(%r, %r) = %r reads as the number %r' % (x, d, text, back), desc)
+        # ---- the real SQLite
+        text = impl_sqlrepr(x, 'sqlite')
+        desc = {'dialect': 'sqlite', 'float': x.hex() if finite else repr(x), 'repr': repr(x), 'literal': text}
+        try:
+            got = raw.execute('SELECT ' + text).fetchone()[0]
+        except (sqlite3.Error, ValueError) as ex:
+            got = 'error:%s' % type(ex).__name__
+        if finite:
+            if not (isinstance(got, (float, int)) and not isinstance(got, bool) and ulp_close(float(got), x)):
+                ctx.oracle_fail('C02:sqlite:float-select-differs:%s' % x.hex(),
+                                'SELECT %s on SQLite returns %r, the value is %r' % (text, got, x), desc)
+            else:
+                ctx.count('float:sqlite exact' if float(got) == x else 'float:sqlite 1 ulp off (engine parsing)')
+        elif not isinstance(got, str):
+            same = isinstance(got, float) and (got == x or (math.isnan(got) and math.isnan(x)))
+            if not same:
+                ctx.oracle_fail('C02:sqlite:non-finite-float-stored-as:%r' % x,
+                                'SELECT %s on SQLite returns %r for the value %r' % (text, got, x), desc)
+    # ---- Decimal: the text is an exact decimal numeral of the value
+    for s in ['0', '-0', '1.50', '1E+3', '-1.2E-9', '123456789.000000001', '0E-7', '0.1', '1e-30', '9' * 30, '-1.000000000000000000001',
+              'NaN', 'Infinity', '-Infinity'] + [str(rng.randint(-10 ** 25, 10 ** 25)) + 'E%d' % rng.randint(-30, 10) for _ in range(100)]:
+        x = decimal.Decimal(s)
+        for d in DIALECTS:
+            text = impl_sqlrepr(x, d)
+            ctx.case(('decimal', d, s), kind='decimal')
+            try:
+                back = decimal.Decimal(text) if _NUM.match(text) else None
+            except decimal.InvalidOperation:
+                back = None
+            if x.is_finite() and not (back is not None and back == x):
+                ctx.oracle_fail('C02:%s:decimal-literal-is-not-the-value:%s' % (d, s),
+                                'sqlrepr(Decimal(%r), %r) = %r reads as %r' % (s, d, text, back), {'dialect': d, 'decimal': s})
 
 
 def replay(case):
